@@ -1,5 +1,5 @@
 ENGINES = [
-    {'name': 'simw', 'path': 'engine/simw', 'serves_properties': ['C01','C02','C11','C13','C14'], 'kind_free_text': 'width-scaled recompilation of the real source (model immintrin.h + asm translated from its text), exhaustive over all operand values at w=2,4,8'},
+    {'name': 'simw', 'path': 'engine/simw', 'serves_properties': ['C01','C02','C06','C07','C08','C11','C13','C14'], 'kind_free_text': 'width-scaled recompilation of the real source (model immintrin.h + asm translated from its text), exhaustive over all operand values at w=2,4,8'},
     {'name': 'lift64', 'path': 'harness', 'serves_properties': ['C01','C02','C11','C13','C14'], 'kind_free_text': 'exhaustive tuples over 64-bit boundary alphabets on the compiled library, closure over library-produced non-canonical values'},
 ]
 NOTES = 'All checks: bin/check <ID> --tier quick|thorough; rebuilds harnesses from /repo/src on every run; KNOWN_FINDINGS.txt lists recorded defects.'
@@ -26,3 +26,23 @@ for _id,_fam in (('C13','AVX2'),('C14','AVX-512 (two interleaved states)')):
         'text': 'The '+_fam+' dot/sparse/dense kernels are run from the repository source at half-word width w on every 6-tuple of lane operands (w=2), every triple of addend representations through the adder chain (all 256^3 at w=4), every 4-tuple of row-result representations through the column sums, every admitted coefficient triple of the 8-bit variants and every unit coefficient array against tagged states (routing); the compiled kernels run on alphabet tuples with <=2 deviations and on lane products that land in [p,2^64) in all addends. Oracle: integer matrix-vector product mod p.',
         'note': 'Trusted: intrinsics model (bound by C02/C11 conformance), __int128 oracle, scaled form of the 8-bit precondition. Composition bugs need two or more non-canonical values in one lane (probability ~2^-64 at full width); the scaled enumeration covers every such combination, the native run covers them through exact-product generators.',
     }
+
+ENGINES.append({'name': 'cfgx', 'path': 'harness', 'serves_properties': ['C07','C08'], 'kind_free_text': 'configuration explorer: full cross product of shape/length/thread/backend dimensions, exact-size guard-page arenas, one process per case group with per-case crash attribution, independent reference'})
+CHECKS['C06'] = {
+    'engine': 'simw+lift64',
+    'technique': 'exhaustive single-position deviation over all 2^16 lane values (and position pairs) on the whole permutation recompiled at w=8; table obligations; bounded-deviation enumeration on the compiled code',
+    'text': 'All three implementations of the full permutation are recompiled from the repository source at 16-bit lanes and run on every state that deviates from a base state in one position by any lane value (thorough: four base states and all position pairs over a 64-value set), so every internal correction path and every canonical/non-canonical hand-off between kernels is executed many times; results are compared with an independent reference permutation. The compiled code is run on base states with <=2 deviating positions over the 64-bit alphabet, the two known-answer vectors and chained outputs. 1057 table obligations (constants small/canonical, 8-bit MDS, flattened layouts) are checked exhaustively.',
+    'note': 'Equality for every 64-bit state is inferred: kernels right under preconditions (C02/C11/C13/C14) + preconditions hold at call sites (tables, dense scaled run) + structure (native). Scaled run uses constants reduced mod p_8. Reference schedule is the optimised one on the library tables; KATs pin the constants.',
+}
+CHECKS['C07'] = {
+    'engine': 'cfgx',
+    'technique': 'exhaustive enumeration of lengths x content patterns x variants x guard-page placements against a reference sponge',
+    'text': 'Every length 0..41 (thorough 0..130) with zero, counting, non-canonical and every single-marker content, for the scalar, AVX2 and paired AVX-512 variants, each placed against PROT_NONE guard pages on both ends so the read extent is exact; digests compared with an independent sponge. The same enumeration runs on the w=8 recompiled source.',
+    'note': 'Lengths above the bound are not enumerated; the loop structure repeats per 8-element block and all residues are covered at least five times. Reference is the harness\'s own.',
+}
+CHECKS['C08'] = {
+    'engine': 'cfgx',
+    'technique': 'exhaustive cross product rows x cols x dim x threads x backend x batch size with exact guard-page extents against a reference tree',
+    'text': 'Every combination of rows in {1..16 (64)}, cols in {0..12,15,16,17}, dim in {1,2,3}, thread counts {0,1,2,3,5}, backend {seq, avx, avx512, wrapper} and every batch size 1..cols+1 is built on exact-size guard-page arenas and every element of the tree buffer is compared with a reference tree; crashes are attributed to the exact configuration.',
+    'note': 'Contents are three patterns per configuration (dependence on contents is through the hash, covered by C06/C07). Schedules of the thread team are covered by C12.',
+}
